@@ -270,3 +270,8 @@ func TestStore(t *testing.T) { storeProp.Check(t) }
 var concChainsProp = h.Define(P, "concchains", chain.DrawConcChains, func(c *h.Ctx, cc chain.ConcChains) { chain.RunConcChains(c, cc, "C03") })
 
 func TestConcurrentChains(t *testing.T) { concChainsProp.Check(t) }
+
+// Argument presentation (chain/argorder.go): the statements bind the arguments, not the way they were filled in.
+var argOrderProp = h.Define(P, "argorder", chain.DrawArgOrder, func(c *h.Ctx, ac chain.ArgOrderCase) { chain.RunArgOrder(c, ac, "C03") })
+
+func TestArgOrder(t *testing.T) { argOrderProp.Check(t) }
